@@ -41,6 +41,14 @@ func lookupExternal(fn *ssa.Function, name string) externalFn {
 		switch fn.Pkg.Pkg.Path() {
 		case "github.com/sirupsen/logrus":
 			return logrusStub(fn)
+		case "github.com/golang/protobuf/proto", "github.com/gogo/protobuf/proto":
+			if strings.HasPrefix(fn.Name(), "Register") {
+				return func(fr *frame, args []value) value { return zeroResult(fn) }
+			}
+		case "reflect", "internal/reflectlite", "internal/abi":
+			return func(fr *frame, args []value) value {
+				panic(engineError{"reflection is not supported: " + name})
+			}
 		}
 	}
 	// methods of logrus types reached through wrappers have Pkg == nil sometimes
@@ -622,6 +630,8 @@ func registerMisc() {
 	ext("os.Getpid", func(fr *frame, a []value) value { return 1 })
 	ext("os.Hostname", func(fr *frame, a []value) value { return tuple{"host", iface{}} })
 	ext("runtime.Gosched", func(fr *frame, a []value) value { S.switchPoint("gosched"); return nil })
+	ext("runtime.Callers", func(fr *frame, a []value) value { return 0 })
+	ext("runtime.Caller", func(fr *frame, a []value) value { return tuple{uintptr(0), "", 0, false} })
 	ext("runtime.GC", func(fr *frame, a []value) value { return nil })
 	ext("runtime.KeepAlive", func(fr *frame, a []value) value { return nil })
 	ext("runtime.SetFinalizer", func(fr *frame, a []value) value { return nil })
@@ -742,6 +752,7 @@ func registerMisc() {
 	ext("math/rand.Float32", func(fr *frame, a []value) value { return float32(0.5) })
 	ext("math/rand.Float64", func(fr *frame, a []value) value { return 0.5 })
 	ext("math/rand.Seed", noop)
+	ext("(*math/rand.rngSource).Seed", noop)
 
 	// uuid.NewV4: fresh, distinct from everything else on the path
 	newV4 := func(fr *frame, a []value) value {
